@@ -141,10 +141,12 @@ func shouldUpdateAlertStateToFiring(alertDetails *alertutils.AlertDetails, curre
 		return true
 	}
 
+	// Only the evaluations count: a config change also writes a history row (with the zero AlertState).
 	alertHistoryList, err := databaseObj.GetAlertHistoryByAlertID(&alertutils.AlertHistoryQueryParams{
-		AlertId:   alertDetails.AlertId,
-		Limit:     intervalCount - 1,
-		SortOrder: alertutils.DESC,
+		AlertId:         alertDetails.AlertId,
+		Limit:           intervalCount - 1,
+		SortOrder:       alertutils.DESC,
+		EvaluationsOnly: true,
 	})
 	if err != nil {
 		log.Errorf("ALERTSERVICE: shouldUpdateAlertStateToFiring: Error getting AlertHistory. Alert=%+v & err=%+v.", alertDetails.AlertName, err)
